@@ -3,17 +3,74 @@ From Verif Require Import GoSem GoSemFacts Timeline TimelineProofs Ingest.
 From Coq Require Import ZifyBool Floats.
 Ltac Zify.zify_post_hook ::= Z.div_mod_to_equations.
 
-(** * The truncation defect of calcSegmentAvailabilityTime *)
+(** * The rounding of calcSegmentAvailabilityTime *)
 
 (** One 2.002 s segment at timescale 30000 (29.97 fps content). *)
 Definition rep2002 : rep := {| segs := [ {| st := 0; en := 60060; snr := 0 |} ]; ts := 30000 |}.
 Definition cfg0 : tcfg := {| startS := 0; startNr := 0; tsbdS := 60; ato := Some 0 |}.
 
+(** 60060/30000*1000 is 2001.9999999999998 in binary64.  Before fix f4e8dbe the code truncated:
+    2001 ms, where the segment server still answers "too early" (1 ms). *)
 Lemma avail_truncation_witness :
-  availMS_float rep2002 2002 cfg0 0 = Ok 2001 /\
+  availMS_float_r RTrunc rep2002 2002 cfg0 0 = Ok 2001 /\
   availMS_exact rep2002 2002 cfg0 0 = Ok 2002 /\
   lookup rep2002 2002 cfg0 ByNumber 0 2001 = TTooEarly 1.
 Proof. vm_compute. repeat split; reflexivity. Qed.
+
+(** With math.Ceil the same segment is asked for at 2002 ms and served. *)
+Lemma avail_ceil_witness :
+  availMS_float rep2002 2002 cfg0 0 = Ok 2002 /\
+  exists m, lookup rep2002 2002 cfg0 ByNumber 0 2002 = TOk m.
+Proof. vm_compute. split; [reflexivity|eexists; reflexivity]. Qed.
+
+(** The requested instant is on time: not before the segment is available, less than 1 ms after. *)
+Definition on_time_b (rm : rounding) (E tsc atoMS : Z) : bool :=
+  let a := availFloatMS_r rm E tsc atoMS in
+  let av := E * 1000 - atoMS * tsc in
+  (av <=? a * tsc) && (a * tsc <=? av + tsc).
+
+(** All segment ends (n+1)*dur, n < N, of a constant-duration track that started at startS. *)
+Definition grid_on_time (rm : rounding) (dur tsc startS atoMS : Z) (N : Z) : bool :=
+  forallb (fun n => on_time_b rm ((n + 1) * dur + startS * tsc) tsc atoMS) (seqZ 0 (Z.to_nat N)).
+
+Lemma forallb_seqZ (f : Z -> bool) : forall N s, forallb f (seqZ s N) = true ->
+  forall n, s <= n < s + Z.of_nat N -> f n = true.
+Proof.
+  induction N as [|N IH]; intros s H n Hn; [lia|].
+  cbn [seqZ forallb] in H. apply andb_prop in H. destruct H as [H0 H1].
+  destruct (Z.eq_dec n s) as [->|Hne]; [exact H0|]. apply (IH (s + 1) H1). lia.
+Qed.
+
+(** The segment grids of the bundled assets' reference representations:
+    (duration in ticks, timescale). *)
+Definition bundled_grids : list (Z * Z) :=
+  [ (180000, 90000); (540000, 90000); (360000, 90000); (122880, 15360); (60060, 30000); (25600, 12800) ].
+
+Definition sweep (rm : rounding) (N : Z) : bool :=
+  forallb (fun g => forallb (fun startS => forallb (fun atoMS =>
+      grid_on_time rm (fst g) (snd g) startS atoMS N) [0; 1000; 1500]) [0; 1758000000]) bundled_grids.
+
+Lemma sweep_ceil : sweep RCeil 2500 = true.
+Proof. vm_cast_no_check (eq_refl true). Qed.
+
+(** Bounded statement (the bound is part of it): on the grids of the bundled assets, for streams
+    that started at the epoch or in September 2025, with an availability time offset of 0, 1
+    or 1.5 s, the first 2500 availability times computed by the code are on time. *)
+Theorem ceil_on_time_bounded : forall dur tsc startS atoMS n,
+  In (dur, tsc) bundled_grids -> In startS [0; 1758000000] -> In atoMS [0; 1000; 1500] ->
+  0 <= n < 2500 ->
+  on_time_b RCeil ((n + 1) * dur + startS * tsc) tsc atoMS = true.
+Proof.
+  intros dur tsc startS atoMS n Hg Hs Ha Hn.
+  pose proof sweep_ceil as H. unfold sweep in H. rewrite forallb_forall in H.
+  specialize (H _ Hg). rewrite forallb_forall in H. specialize (H _ Hs).
+  rewrite forallb_forall in H. specialize (H _ Ha). cbn [fst snd] in H.
+  unfold grid_on_time in H. apply (forallb_seqZ _ _ _ H). rewrite Z2Nat.id by lia. lia.
+Qed.
+
+(** The truncation fails the same sweep at once. *)
+Lemma sweep_trunc_fails : sweep RTrunc 1 = false.
+Proof. vm_compute. reflexivity. Qed.
 
 (** * The session: numbering of the attempts *)
 
@@ -508,21 +565,22 @@ Definition trig : event := EvTrigger {| fi_clock := []; fi_refuse := [] |}.
 Definition cf2997 (chunked : bool) (c : tcfg) : scfg :=
   mk_scfg [ {| ir_kind := RVideo; ir_tab := Some rep2997 |} ] rep2997 8008 2002 c false true None chunked.
 
-(** Step mode from testNowMS = 10000, five triggers: attempts 4,5,6,7,8 are made at
-    10010, 12012, 14014, 16015 (one millisecond early), 18018; the receiver gets 4,5,6,8. *)
-Lemma gap_witness :
-  let '(_, gs, st) := session (cf2997 false cfg0) 10000 [] [trig; trig; trig; trig; trig] in
+(** Step mode from testNowMS = 10000, five triggers.  With the truncation (before fix f4e8dbe)
+    number 7 was asked for at 16015 ms, one millisecond early, and not delivered. *)
+Lemma gap_witness_before_fix :
+  let cf := mk_scfg_r RTrunc [ {| ir_kind := RVideo; ir_tab := Some rep2997 |} ] rep2997 8008 2002 cfg0 false true None false in
+  let '(_, gs, st) := session cf 10000 [] [trig; trig; trig; trig; trig] in
   map (map (fun m => (mp_nr m, mp_now m, mp_ok m))) gs =
     [[(4, 10010, true)]; [(5, 12012, true)]; [(6, 14014, true)]; [(7, 16015, false)]; [(8, 18018, true)]]
   /\ ph st = PRunning.
 Proof. vm_compute. split; reflexivity. Qed.
 
-(** The same with chunked transfer (ato 1 s): the rejected request of number 7 ends the process. *)
-Lemma chunked_crash_witness :
-  let c := {| startS := 0; startNr := 0; tsbdS := 60; ato := Some 1000 |} in
-  let '(_, gs, st) := session (cf2997 true c) 15000 [] [trig; trig] in
-  map (map (fun m => (mp_nr m, mp_now m, mp_ok m))) gs = [[(7, 15015, false)]] /\
-  ph st = PCrashed "startReadAndSendChunked: send on closed channel".
+(** With math.Ceil all five are delivered. *)
+Lemma gap_closed :
+  let '(_, gs, st) := session (cf2997 false cfg0) 10000 [] [trig; trig; trig; trig; trig] in
+  map (map (fun m => (mp_nr m, mp_now m, mp_ok m))) gs =
+    [[(4, 10010, true)]; [(5, 12012, true)]; [(6, 14014, true)]; [(7, 16016, true)]; [(8, 18018, true)]]
+  /\ ph st = PRunning.
 Proof. vm_compute. split; reflexivity. Qed.
 
 (** 2 s segments (4 segments at 90 kHz, loop 8 s). *)
@@ -530,6 +588,17 @@ Definition rep2s : rep :=
   {| segs := [ {| st := 0; en := 180000; snr := 1 |}; {| st := 180000; en := 360000; snr := 2 |};
                {| st := 360000; en := 540000; snr := 3 |}; {| st := 540000; en := 720000; snr := 4 |} ];
      ts := 90000 |}.
+
+(** Chunked transfer: a request that writeSegment rejects ends the process (send on closed
+    channel).  Still reachable: a session created before the first segment is complete asks for
+    number -1 at its first trigger. *)
+Lemma chunked_crash_witness :
+  let c := {| startS := 0; startNr := 0; tsbdS := 60; ato := Some 1000 |} in
+  let cf := mk_scfg [ {| ir_kind := RVideo; ir_tab := Some rep2s |} ] rep2s 8000 2000 c false true None true in
+  let '(_, gs, st) := session cf 500 [] [trig; trig] in
+  map (map (fun m => (mp_nr m, mp_ok m))) gs = [[(-1, false)]] /\
+  ph st = PCrashed "startReadAndSendChunked: send on closed channel".
+Proof. vm_compute. split; reflexivity. Qed.
 
 (** Real-time mode with duration 2 s (numbers 5 and 6, the second marked last): if the upload of
     number 5 ends after number 6 became available, number 6 is sent by the catch-up loop without
